@@ -399,15 +399,15 @@ def run_driver(exe, args, lines, timeout=600, per_case_restart=True):
         got = so.split("\n")
         if got and got[-1] == "":
             got.pop()
-        complete = got if rc in (0, 96) or len(got) == len(chunk) else got
-        k = min(len(complete), len(chunk))
+        k = min(len(got), len(chunk))
+        if k < len(chunk) and rc == 0:
+            pass   # driver stopped early without an error code: treated as a crash on the next case
         for i in range(k):
-            outs[start + i] = complete[i]
-        if rc == 0 and k == len(chunk):
-            break
-        if rc == 96 or (k == len(chunk) and "LeakSanitizer" in se):
-            # all cases answered; leaks detected at exit
-            leak_reports.append(se[-3000:])
+            outs[start + i] = got[i]
+        if k == len(chunk):
+            # all cases answered; LeakSanitizer may have reported at exit
+            if "LeakSanitizer" in se:
+                leak_reports.append(se[-3000:])
             break
         # crash on case start+k (its output line is missing or partial)
         crashes.append((start + k, se[-3000:], rc))
